@@ -7,6 +7,8 @@ import (
 	"sort"
 	"strings"
 
+	"github.com/stoewer/go-strcase"
+
 	"verifharness/desc"
 	"verifharness/driver"
 )
@@ -27,7 +29,7 @@ type Options struct {
 	TargetPackage        string
 	Sort                 int // 0 random, 1 on, 2 off
 	NoOptions            bool
-	MapOfBytes           bool // F12: map<string, bytes> does not compile
+	NoMapOfBytes         bool // F12 (fixed): map<string, bytes> did not compile
 	NoTimeType           bool // C18: leave time_type / duration_type unset
 	StructPkgName        string
 }
@@ -47,10 +49,13 @@ type Hook struct {
 
 // Meta is what the harness needs to know about a generated case besides the case itself.
 type Meta struct {
-	Roots     []string
-	Injected  []string
-	Hooks     []Hook
-	CustomTys []string // named custom types to declare in the struct package
+	Roots    []string
+	Injected []string
+	// OneofGroups lists, for every occurrence of a oneof group below a root, the attribute names of its branches
+	// (independent naming oracle: name_overrides, json tag, snake_case). Plans keep at most one of them non-null.
+	OneofGroups [][]string
+	Hooks       []Hook
+	CustomTys   []string // named custom types to declare in the struct package
 }
 
 var msgWords = []string{"Alpha", "Bravo", "Charlie", "Delta", "Echo", "Foxtrot", "Golf", "Hotel", "India", "Juliet", "Kilo", "Lima",
@@ -177,8 +182,8 @@ func (x *g) comment() *string {
 }
 
 type msgInfo struct {
-	name     string
-	empty    bool
+	name       string
+	empty      bool
 	hasEmbed   bool
 	embeddable bool
 	hasOneof   bool
@@ -291,7 +296,7 @@ func (x *g) mapField(vals []msgInfo) desc.Field {
 		f.Type, f.TypeName = "enum", x.pick(x.enums)
 	default:
 		f.Type = desc.Scalars[x.r.Intn(len(desc.Scalars))]
-		for f.Type == "bytes" && !x.opt.MapOfBytes {
+		for f.Type == "bytes" && x.opt.NoMapOfBytes {
 			f.Type = desc.Scalars[x.r.Intn(len(desc.Scalars))]
 		}
 	}
@@ -528,7 +533,60 @@ func GenCase(r *driver.Rng, opt Options) (*desc.Case, *Meta) {
 		x.fieldOptions(c, cfg)
 	}
 	c.Yaml = cfg
+	x.meta.OneofGroups = OneofGroups(c, x.meta.Roots)
 	return c, x.meta
+}
+
+// AttrName is the documented naming rule (README "Schema field naming"): name_overrides entry (full path, then
+// Message.Field), else the first element of the json tag (unless "-" or empty), else snake_case of the proto name.
+func AttrName(cfg *desc.Config, path, typeName string, f *desc.Field) string {
+	for _, key := range []string{path, typeName} {
+		for _, kv := range cfg.NameOverrides {
+			if kv.K == key {
+				return kv.V
+			}
+		}
+	}
+	if f.JSONTag != nil {
+		j := strings.Split(*f.JSONTag, ",")[0]
+		if j != "-" && j != "" {
+			return j
+		}
+	}
+	return strcase.SnakeCase(f.Name)
+}
+
+// OneofGroups computes the attribute-name groups of all oneof occurrences.
+func OneofGroups(c *desc.Case, roots []string) [][]string {
+	cfg := c.Yaml
+	if cfg == nil {
+		cfg = &desc.Config{}
+	}
+	seen := map[string]bool{}
+	var out [][]string
+	byGroup := map[string][]string{}
+	var order []string
+	for _, o := range occurrences(&c.Request, roots) {
+		if o.f.Oneof < 0 {
+			continue
+		}
+		parent := o.path[:strings.LastIndex(o.path, ".")]
+		k := parent + "#" + o.msg.Name + "#" + fmt.Sprint(o.f.Oneof)
+		if _, ok := byGroup[k]; !ok {
+			order = append(order, k)
+		}
+		byGroup[k] = append(byGroup[k], AttrName(cfg, o.path, o.typeName, o.f))
+	}
+	for _, k := range order {
+		g := byGroup[k]
+		sort.Strings(g)
+		key := strings.Join(g, ",")
+		if !seen[key] && len(g) > 1 {
+			seen[key] = true
+			out = append(out, g)
+		}
+	}
+	return out
 }
 
 func (x *g) nonEmptyOnly(l []msgInfo) []msgInfo {
